@@ -515,18 +515,29 @@ def tab_dec(ctx):
                                   "%s decoder, shift set %d, value %d%s: %r; Annex C says %r" % (mode, sh, v, " after Upper Shift" if up else "", got, exp), site=site))
     # X12 values
     fn = "decodation::dec_x12_val"
-    need(fn in f.thir, r, fn)
-    b = f.thir[fn]
-    chp = b["params"][0]["pat"]["name"]
     inv = {ref_x12(ch): ch for ch in range(256) if ref_x12(ch) is not None}
-    for v in range(256):
-        try:
-            res = T.Folder(f, env={chp: v}, effects=True).run(b["body"])
-            got = res.get("#0") if isinstance(res, dict) and res.get("__variant__") == "Ok" else ("err",)
-        except (T.Trap, T.Undecidable) as ex:
-            got = str(ex)
-        want = inv.get(v, ("err",))
-        obs.append(Ob(r, "x12:%d" % v, got == want, "X12 value %d decodes to %r; 5.2.7 says %r" % (v, got, want), site=T.span_str(b["span"])))
+    if fn in f.thir:
+        b = f.thir[fn]
+        chp = b["params"][0]["pat"]["name"]
+        for v in range(256):
+            try:
+                res = T.Folder(f, env={chp: v}, effects=True).run(b["body"])
+                got = res.get("#0") if isinstance(res, dict) and res.get("__variant__") == "Ok" else ("err",)
+            except (T.Trap, T.Undecidable) as ex:
+                got = str(ex)
+            want = inv.get(v, ("err",))
+            obs.append(Ob(r, "x12:%d" % v, got == want, "X12 value %d decodes to %r; 5.2.7 says %r" % (v, got, want), site=T.span_str(b["span"])))
+    else:
+        # no per-value helper: the table is read off decode_x12 folded as a whole (values 0..=40 are all a codeword pair can carry)
+        xtab, xsite = x12_dec_table(ctx, r)
+        for v in range(256):
+            want = inv.get(v, ("err",))
+            if v > 40:
+                obs.append(Ob(r, "x12:%d" % v, True, "X12 value %d cannot come out of a codeword pair (c1 <= 40, c2, c3 <= 39)" % v, site=xsite))
+                continue
+            got = xtab[v]
+            exp = [want] * len(got)
+            obs.append(Ob(r, "x12:%d" % v, got == exp and len(got) >= 1, "X12 value %d decodes to %r at the positions of a triple; 5.2.7 says %r" % (v, got, want), site=xsite))
     # EDIFACT values
     etab, esite = edifact_dec_table(ctx, r)
     unl = f.const("encodation::edifact::UNLATCH")
@@ -733,6 +744,47 @@ def _cmp_set(e, var_pred):
     return None
 
 
+def x12_dec_table(ctx, rule):
+    """what decode_x12 (folded as a whole, with the crate's Reader and pair unpacking) appends for X12 value v at each position
+    of a triple: {v: [byte | ("err",) | text]} (v = 40 only exists in the first position)"""
+    f = ctx.facts()
+    fn = "decodation::decode_x12"
+    need(fn in f.thir, rule, fn)
+    b = f.thir[fn]
+    need(len(b["params"]) == 2 and all(p_.get("pat", {}).get("k") == "Bind" for p_ in b["params"]), rule, fn, "(data, out)")
+    pn = [p_["pat"]["name"] for p_ in b["params"]]
+    base = [14, 2, 30]          # 'A', CR-terminator class.., all valid X12 values with known images
+
+    def compute():
+        tab = {}
+        for v in range(41):
+            row = []
+            for k in range(3 if v < 40 else 1):
+                vals = list(base)
+                vals[k] = v
+                full = 1600 * vals[0] + 40 * vals[1] + vals[2] + 1
+                raw = [full >> 8, full & 255, 254]
+                rd = {"__adt__": "decodation::Reader", "__variant__": "Reader", "0": list(raw), "#0": list(raw), "1": 3, "#1": 3}
+                out = []
+                try:
+                    res = T.Folder(f, env={pn[0]: rd, pn[1]: out}, effects=True, local_calls=3).run(b["body"])
+                    if isinstance(res, dict) and res.get("__variant__") == "Err":
+                        row.append(["err"])
+                    elif len(out) == 3 and all(isinstance(x, int) for x in out):
+                        others_ok = all(out[i] == {14: 65, 2: 62, 30: 81}[vals[i]] for i in range(3) if i != k)
+                        row.append(out[k] if others_ok else "neighbouring values decode to %r" % (out,))
+                    else:
+                        row.append("appends %r" % (out,))
+                except T.Trap as ex:
+                    row.append("trap: %s" % ex)
+                except T.Undecidable as ex:
+                    row.append("cannot decide: %s" % ex)
+            tab[str(v)] = row
+        return tab
+    tab = ctx.memo("x12_dec_table", compute)
+    return {int(k): [tuple(x) if isinstance(x, list) else x for x in row] for k, row in tab.items()}, T.span_str(b["span"])
+
+
 def edifact_dec_table(ctx, rule):
     """what decode_edifact (folded as a whole, with the crate's Reader) appends for six-bit value v placed at each of the four
     positions of a triple: {v: [byte | ("stop", k) | text]}; the triple is followed by one that starts with the unlatch value"""
@@ -934,17 +986,25 @@ def tab_codec(ctx):
             obs.append(Ob(r, "%s:0x%02X" % (mode, ch), ok, "%s: the values %r the encoder emits for byte 0x%02X are mapped back by the decoder's tables to %r" % (mode, seq, ch, out), site=site))
     # X12
     x12, _ = enc_x12_table(f, r)
-    b = f.thir["decodation::dec_x12_val"]
-    chp = b["params"][0]["pat"]["name"]
+    b = f.thir.get("decodation::dec_x12_val")
+    xtab = None
+    if b is None:
+        xtab, _xs = x12_dec_table(ctx, r)
+    else:
+        chp = b["params"][0]["pat"]["name"]
     for ch in range(256):
         v = x12.get(ch)
         if v is None:
             continue
-        try:
-            res = T.Folder(f, env={chp: v}, effects=True).run(b["body"])
-            got = res.get("#0") if isinstance(res, dict) and res.get("__variant__") == "Ok" else None
-        except (T.Trap, T.Undecidable):
-            got = None
+        if xtab is not None:
+            row = xtab.get(v, []) if isinstance(v, int) else []
+            got = row[0] if row and all(x == row[0] for x in row) and isinstance(row[0], int) else None
+        else:
+            try:
+                res = T.Folder(f, env={chp: v}, effects=True).run(b["body"])
+                got = res.get("#0") if isinstance(res, dict) and res.get("__variant__") == "Ok" else None
+            except (T.Trap, T.Undecidable):
+                got = None
         obs.append(Ob(r, "X12:0x%02X" % ch, got == ch, "X12: value %r of byte 0x%02X decodes back to %r" % (v, ch, got)))
     # EDIFACT: the encoder keeps the low six bits (write4 masks), the decoder restores bit 6
     etab, _esite = edifact_dec_table(ctx, r)
@@ -1007,6 +1067,7 @@ def _edifact_pack(ctx, r):
                 return base[folder.fold(c["args"][1])]
             return NotImplemented
         fo = T.Folder(f, env={sname: list(vals), b["params"][0]["pat"]["name"]: "CTX"}, on_call=_push_hook(sink, extra), effects=True)
+        fo.views = True
         fo.run(b["body"])
         return sink
     try:
